@@ -455,7 +455,7 @@ def r04_7(ctx: Ctx):
     obs = []
     n = 0
     for ci in ctx.concrete_demes():
-        f = ctx.prog.lookup_method(ci, "run_metaepoch")
+        f = __import__("hmslint.rules.common", fromlist=["step_method"]).step_method(ctx, ci)
         if f is None:
             continue
         sn = f.self_name() or "self"
@@ -507,7 +507,9 @@ def r04_7(ctx: Ctx):
         if viol or pending_exit:
             nm = "/".join(sorted(viol[0][1] if viol else pending_exit[0]))
             wnode = viol[0][0] if viol else cfg.exit
-            obs.append(ctx.ob("R04.7", f, wnode.stmt if wnode.stmt is not None else f.node, status=VIOLATION, detail=f"{ci.name}: on some path the evaluated population `{nm}` is not appended to the metaepoch's generations before {'the step returns' if not viol else viol[0][2]}: its individuals were evaluated but are missing from the history, so the reported best can be worse than a value the objective returned", witness=witness_path(cfg, parent, wnode.id, viol[0][1] if viol else pending_exit[0]), construct=f"{ci.name}:{nm}"))
+            from .common import opaque_step_helpers
+
+            obs.append(ctx.ob("R04.7", f, wnode.stmt if wnode.stmt is not None else f.node, status=INCONCLUSIVE if opaque_step_helpers(ctx, f) else VIOLATION, detail=f"{ci.name}: on some path the evaluated population `{nm}` is not appended to the metaepoch's generations before {'the step returns' if not viol else viol[0][2]}: its individuals were evaluated but are missing from the history, so the reported best can be worse than a value the objective returned", witness=witness_path(cfg, parent, wnode.id, viol[0][1] if viol else pending_exit[0]), construct=f"{ci.name}:{nm}"))
         else:
             obs.append(ctx.ob("R04.7", f, f.node, detail=f"{ci.name}: every evaluated population is recorded on every path", construct=f"{ci.name}:recorded"))
     if n < 3:
